@@ -19,6 +19,8 @@ Fixpoint minsert (k : bytes) (v : list bytes) (m : amap) : amap :=       (* inse
 Fixpoint mappend (k : bytes) (xs : list bytes) (m : amap) : amap :=      (* entry().or_insert_with(Vec::new) then push / extend *)
   match m with [] => [(k, xs)] | (k', v') :: r => if beqb k' k then (k', v' ++ xs) :: r else (k', v') :: mappend k xs r end.
 
+Definition mremove (k : bytes) (m : amap) : amap := filter (fun kv => negb (beqb (fst kv) k)) m.       (* remove *)
+
 Section Construct.
 Variable isu : bytes -> bool.     (* std::str::from_utf8(..).is_ok(); instantiated with Utf8.valid below *)
 
@@ -31,25 +33,38 @@ Fixpoint split_vals (vs : list tree) : outcome (list bytes * list bytes) :=
   | P _ _ v :: r => match split_vals r with Panic => Panic | Ok (t, b) => if isu v then Ok (v :: t, b) else Ok (t, v :: b) end
   | C _ _ _ :: _ => Panic end.                                           (* expect("octet string") *)
 
-Definition one_attr (acc : amap * amap) (a_v : tree) : outcome (amap * amap) :=
+(* [f41]: repair F41 - an attribute description may come in more than one PartialAttribute element (chunking servers, attribute-mapping
+   proxies); the values of all of them belong to the one attribute. As found each element was folded into the maps on its own: a later
+   all-text element replaced the earlier values (insert), and a text and a binary element of one description ended up in both maps *)
+Definition one_attr_gen (f41 : bool) (acc : amap * amap) (a_v : tree) : outcome (amap * amap) :=
   let (attrs, bins) := acc in
   match a_v with
   | C _ _ (P _ _ a_type :: C _ _ vals :: _) =>
       if negb (isu a_type) then Panic else                               (* expect("attribute type") *)
       match split_vals vals with
       | Panic => Panic
-      | Ok (texts, []) => Ok (minsert a_type texts attrs, bins)
-      | Ok (texts, invalid) => Ok (attrs, mappend a_type texts (mappend a_type invalid bins)) end
+      | Ok (texts, []) =>
+          if f41 then match mget a_type bins with
+                      | Some _ => Ok (attrs, mappend a_type texts bins)
+                      | None => Ok (mappend a_type texts attrs, bins) end
+          else Ok (minsert a_type texts attrs, bins)
+      | Ok (texts, invalid) =>
+          if f41 then let earlier := match mget a_type attrs with Some e => e | None => [] end in
+                      Ok (mremove a_type attrs, mappend a_type texts (mappend a_type earlier (mappend a_type invalid bins)))
+          else Ok (attrs, mappend a_type texts (mappend a_type invalid bins)) end
   | _ => Panic end.
-Fixpoint all_attrs (acc : amap * amap) (l : list tree) : outcome (amap * amap) :=
-  match l with [] => Ok acc | a :: r => match one_attr acc a with Panic => Panic | Ok acc' => all_attrs acc' r end end.
+Fixpoint all_attrs_gen (f41 : bool) (acc : amap * amap) (l : list tree) : outcome (amap * amap) :=
+  match l with [] => Ok acc | a :: r => match one_attr_gen f41 acc a with Panic => Panic | Ok acc' => all_attrs_gen f41 acc' r end end.
 
-Definition construct (t : tree) : outcome sentry :=
+Definition construct_gen (f41 : bool) (t : tree) : outcome sentry :=
   match t with
   | C _ id (P _ _ dn :: C _ _ attrs :: _) =>
       if negb (id =? 4) then Panic else if negb (isu dn) then Panic else
-      match all_attrs ([], []) attrs with Panic => Panic | Ok (a, b) => Ok {| e_dn := dn; e_attrs := a; e_bin := b |} end
+      match all_attrs_gen f41 ([], []) attrs with Panic => Panic | Ok (a, b) => Ok {| e_dn := dn; e_attrs := a; e_bin := b |} end
   | _ => Panic end.
+Definition one_attr := one_attr_gen true.
+Definition all_attrs := all_attrs_gen true.
+Definition construct := construct_gen true.
 
 (* ---- what the server sent ---- *)
 Definition spec_attr := (bytes * list bytes)%type.
@@ -93,77 +108,161 @@ Proof. intros Hne. induction m as [|[k2 v2] m IH]; cbn.
     + apply beqb_eq in E. subst k2. destruct (beqb k k') eqn:E2; [apply beqb_eq in E2; congruence|reflexivity].
     + destruct (beqb k2 k'); [reflexivity|exact IH]. Qed.
 
-(* the expected content of each map for one attribute *)
-Definition text_of (a : spec_attr) : option (list bytes) := if all_text (snd a) then Some (snd a) else None.
-Definition bin_of (a : spec_attr) : option (list bytes) :=
-  if all_text (snd a) then None else Some (filter (fun v => negb (isu v)) (snd a) ++ filter isu (snd a)).
+Lemma mget_mremove_same k m : mget k (mremove k m) = None.
+Proof. induction m as [|[k' v'] m IH]; cbn; [reflexivity|]. destruct (beqb k' k) eqn:E; cbn; [exact IH|now rewrite E]. Qed.
+Lemma mget_mremove_other k k' m : k' <> k -> mget k' (mremove k m) = mget k' m.
+Proof. intros Hne. induction m as [|[k2 v2] m IH]; cbn; [reflexivity|]. destruct (beqb k2 k) eqn:E; cbn.
+  - apply beqb_eq in E. subst k2. destruct (beqb k k') eqn:E2; [apply beqb_eq in E2; congruence|exact IH].
+  - destruct (beqb k2 k'); [reflexivity|exact IH]. Qed.
+Lemma mget_mappend_none k xs m : mget k m = None -> mget k (mappend k xs m) = Some xs.
+Proof. exact (mget_mappend_fresh k xs m). Qed.
 
-Lemma all_attrs_spec attrs : forall am bm,
-  NoDup (map fst attrs) -> Forall (fun a => isu (fst a) = true) attrs ->
-  (forall a, In a attrs -> fresh (fst a) am /\ fresh (fst a) bm) ->
-  exists am' bm', all_attrs (am, bm) (map enc_attr attrs) = Ok (am', bm') /\
-    (forall a, In a attrs -> mget (fst a) am' = text_of a /\ mget (fst a) bm' = bin_of a) /\
-    (forall k, ~ In k (map fst attrs) -> mget k am' = mget k am /\ mget k bm' = mget k bm).
+(* all the values the server sent under one description, in the order sent *)
+Definition vals_of (k : bytes) (attrs : list spec_attr) : list bytes := concat (map snd (filter (fun a => beqb (fst a) k) attrs)).
+Lemma vals_of_snoc k done n vals : vals_of k (done ++ [(n, vals)]) = vals_of k done ++ (if beqb n k then vals else []).
+Proof. unfold vals_of. rewrite filter_app, map_app, concat_app. cbn [filter fst]. destruct (beqb n k); cbn; now rewrite ?app_nil_r. Qed.
+Lemma all_text_app a b : all_text (a ++ b) = all_text a && all_text b.
+Proof. apply forallb_app. Qed.
+
+(* the two maps after the elements [done] *)
+Definition Inv (done : list spec_attr) (am bm : amap) : Prop := forall k,
+  (~ In k (map fst done) -> mget k am = None /\ mget k bm = None) /\
+  (In k (map fst done) ->
+     if all_text (vals_of k done) then mget k am = Some (vals_of k done) /\ mget k bm = None
+     else mget k am = None /\ exists bs, mget k bm = Some bs /\ Permutation bs (vals_of k done)).
+
+Lemma perm_split vals : Permutation (filter (fun v => negb (isu v)) vals ++ filter isu vals) vals.
+Proof. induction vals as [|v vs IH]; [constructor|]. cbn. destruct (isu v); cbn.
+  - apply Permutation_sym, Permutation_cons_app, Permutation_sym. exact IH.
+  - now constructor. Qed.
+
+Lemma one_attr_step done am bm n vals : Inv done am bm -> isu n = true ->
+  exists am' bm', one_attr (am, bm) (enc_attr (n, vals)) = Ok (am', bm') /\ Inv (done ++ [(n, vals)]) am' bm'.
 Proof.
-  induction attrs as [|[n vals] attrs IH]; intros am bm Hnd Hu Hf.
-  - exists am, bm. split; [reflexivity|]. split; [intros x []|intros; split; reflexivity].
-  - cbn [map fst] in Hnd. inversion Hnd as [|? ? Hnin Hnd']; subst. inversion Hu as [|? ? Hun Hu']; subst. cbn [fst] in Hun.
-    destruct (Hf (n, vals) (or_introl eq_refl)) as [Fa Fb]. cbn [fst] in Fa, Fb.
-    cbn [map all_attrs enc_attr one_attr fst snd]. rewrite Hun. cbn [negb]. rewrite split_vals_spec.
-    destruct (all_text vals) eqn:Et.
-    + destruct (filter_all_text _ Et) as [-> ->].
-      destruct (IH (minsert n vals am) bm Hnd' Hu') as (am' & bm' & Hrun & Hin & Hout).
-      { intros a Ha. destruct (Hf a (or_intror Ha)) as [F1 F2]. split; [|exact F2]. unfold fresh.
-        rewrite mget_minsert_other; [exact F1|]. intros E. apply Hnin. rewrite <- E. now apply in_map. }
-      exists am', bm'. split; [exact Hrun|]. split.
-      * intros a [<-|Ha]; [|now apply Hin]. destruct (Hout n Hnin) as [E1 E2]. cbn [fst].
-        rewrite E1, E2, mget_minsert_same. unfold text_of, bin_of. cbn [snd]. rewrite Et. split; [reflexivity|exact Fb].
-      * intros k Hk. cbn [map fst] in Hk. destruct (Hout k (fun H => Hk (or_intror H))) as [E1 E2].
-        rewrite E1, E2. split; [|reflexivity]. apply mget_minsert_other. intros ->. apply Hk. now left.
-    + pose proof (filter_some_binary _ Et) as Hne.
-      destruct (filter (fun v => negb (isu v)) vals) as [|b0 bs] eqn:Eb; [congruence|].
-      set (bm1 := mappend n (filter isu vals) (mappend n (b0 :: bs) bm)).
-      destruct (IH am bm1 Hnd' Hu') as (am' & bm' & Hrun & Hin & Hout).
-      { intros a Ha. destruct (Hf a (or_intror Ha)) as [F1 F2]. split; [exact F1|]. unfold fresh, bm1.
-        assert (fst a <> n) by (intros E; apply Hnin; rewrite <- E; now apply in_map).
-        now rewrite !mget_mappend_other. }
-      exists am', bm'. split; [exact Hrun|]. split.
-      * intros a [<-|Ha]; [|now apply Hin]. destruct (Hout n Hnin) as [E1 E2]. cbn [fst].
-        rewrite E1, E2. unfold text_of, bin_of. cbn [snd]. rewrite Et, Eb. split; [exact Fa|]. unfold bm1.
-        rewrite (mget_mappend_same n _ (b0 :: bs)); [reflexivity|]. now apply mget_mappend_fresh.
-      * intros k Hk. cbn [map fst] in Hk. destruct (Hout k (fun H => Hk (or_intror H))) as [E1 E2].
-        rewrite E1, E2. split; [reflexivity|]. unfold bm1. assert (k <> n) by (intros ->; apply Hk; now left).
-        now rewrite !mget_mappend_other.
+  intros HI Hun. unfold one_attr. cbn [one_attr_gen enc_attr fst snd]. rewrite Hun. cbn [negb]. rewrite split_vals_spec.
+  assert (Hin_snoc : forall k, In k (map fst (done ++ [(n, vals)])) <-> In k (map fst done) \/ k = n).
+  { intros k. rewrite map_app, in_app_iff. cbn. intuition congruence. }
+  destruct (HI n) as [Hn_out Hn_in].
+  destruct (all_text vals) eqn:Et.
+  - (* this element is all text *)
+    destruct (filter_all_text _ Et) as [-> ->].
+    destruct (mget n bm) as [b0|] eqn:Eb.
+    + (* the attribute is already binary: the strings join it *)
+      exists am, (mappend n vals bm). split; [reflexivity|]. intros k. rewrite Hin_snoc, vals_of_snoc. split.
+      * intros Hk. assert (Hkn : k <> n) by tauto. destruct (HI k) as [Ho _]. destruct (Ho (fun H => Hk (or_introl H))) as [E1 E2].
+        rewrite mget_mappend_other by exact Hkn. now split.
+      * intros Hk. destruct (list_eq_dec Byte.byte_eq_dec k n) as [->|Hkn].
+        -- rewrite (proj2 (beqb_eq n n) eq_refl). assert (Hd : In n (map fst done)).
+           { destruct (in_dec (list_eq_dec Byte.byte_eq_dec) n (map fst done)) as [H|H]; [exact H|]. destruct (Hn_out H) as [_ E]. congruence. }
+           specialize (Hn_in Hd). rewrite all_text_app. destruct (all_text (vals_of n done)).
+           ++ destruct Hn_in as [_ E]. congruence.
+           ++ cbn [andb]. destruct Hn_in as [E1 (bs & E2 & Hp)]. split; [exact E1|]. exists (bs ++ vals). split.
+              ** injection E2 as ->. now apply mget_mappend_same.
+              ** now apply Permutation_app_tail.
+        -- assert (Eq : beqb n k = false) by (destruct (beqb n k) eqn:E; [apply beqb_eq in E; congruence|reflexivity]). rewrite Eq, app_nil_r.
+           rewrite mget_mappend_other by exact Hkn. destruct (HI k) as [_ Hi]. apply Hi. tauto.
+    + (* not binary so far: the strings are appended in the text map *)
+      exists (mappend n vals am), bm. split; [reflexivity|]. intros k. rewrite Hin_snoc, vals_of_snoc. split.
+      * intros Hk. assert (Hkn : k <> n) by tauto. destruct (HI k) as [Ho _]. destruct (Ho (fun H => Hk (or_introl H))) as [E1 E2].
+        rewrite mget_mappend_other by exact Hkn. now split.
+      * intros Hk. destruct (list_eq_dec Byte.byte_eq_dec k n) as [->|Hkn].
+        -- rewrite (proj2 (beqb_eq n n) eq_refl), all_text_app, Et, andb_true_r.
+           destruct (in_dec (list_eq_dec Byte.byte_eq_dec) n (map fst done)) as [Hd|Hd].
+           ++ specialize (Hn_in Hd). destruct (all_text (vals_of n done)).
+              ** destruct Hn_in as [E1 E2]. split; [now apply mget_mappend_same|exact Eb].
+              ** destruct Hn_in as [_ (bs & E2 & _)]. congruence.
+           ++ destruct (Hn_out Hd) as [E1 E2]. assert (Ev : vals_of n done = []).
+              { unfold vals_of. replace (filter (fun a => beqb (fst a) n) done) with (@nil spec_attr); [reflexivity|].
+                symmetry. clear -Hd. induction done as [|[k v] d IH]; [reflexivity|]. cbn in *. destruct (beqb k n) eqn:E; [apply beqb_eq in E; tauto|]. apply IH. tauto. }
+              rewrite Ev. cbn [all_text forallb app]. split; [now apply mget_mappend_none|exact Eb].
+        -- assert (Eq : beqb n k = false) by (destruct (beqb n k) eqn:E; [apply beqb_eq in E; congruence|reflexivity]). rewrite Eq, app_nil_r.
+           rewrite mget_mappend_other by exact Hkn. destruct (HI k) as [_ Hi]. apply Hi. tauto.
+  - (* this element has a value that is not UTF-8: everything of this description goes to the binary map *)
+    pose proof (filter_some_binary _ Et) as Hne.
+    destruct (filter (fun v => negb (isu v)) vals) as [|b0 bs0] eqn:Ebv; [congruence|]. rewrite <- Ebv.
+    set (earlier := match mget n am with Some e => e | None => [] end).
+    set (inv := filter (fun v => negb (isu v)) vals). set (txt := filter isu vals).
+    exists (mremove n am), (mappend n txt (mappend n earlier (mappend n inv bm))). split; [reflexivity|].
+    intros k. rewrite Hin_snoc, vals_of_snoc. split.
+    + intros Hk. assert (Hkn : k <> n) by tauto. destruct (HI k) as [Ho _]. destruct (Ho (fun H => Hk (or_introl H))) as [E1 E2].
+      rewrite mget_mremove_other, !mget_mappend_other by exact Hkn. now split.
+    + intros Hk. destruct (list_eq_dec Byte.byte_eq_dec k n) as [->|Hkn].
+      * rewrite (proj2 (beqb_eq n n) eq_refl), all_text_app, Et, andb_false_r. split; [apply mget_mremove_same|].
+        pose proof (perm_split vals) as Hps. fold inv txt in Hps.
+        destruct (in_dec (list_eq_dec Byte.byte_eq_dec) n (map fst done)) as [Hd|Hd].
+        -- specialize (Hn_in Hd). destruct (all_text (vals_of n done)).
+           ++ destruct Hn_in as [E1 E2]. unfold earlier. rewrite E1. exists ((inv ++ vals_of n done) ++ txt). split.
+              ** apply mget_mappend_same, mget_mappend_same. now apply mget_mappend_none.
+              ** rewrite <- app_assoc. apply Permutation_trans with (vals_of n done ++ inv ++ txt); [apply Permutation_app_swap_app|]. now apply Permutation_app_head.
+           ++ destruct Hn_in as [E1 (bs & E2 & Hp)]. unfold earlier. rewrite E1. exists (((bs ++ inv) ++ []) ++ txt). split.
+              ** apply mget_mappend_same, mget_mappend_same. now apply mget_mappend_same.
+              ** rewrite app_nil_r, <- app_assoc. now apply Permutation_app.
+        -- destruct (Hn_out Hd) as [E1 E2]. unfold earlier. rewrite E1. assert (Ev : vals_of n done = []).
+           { unfold vals_of. replace (filter (fun a => beqb (fst a) n) done) with (@nil spec_attr); [reflexivity|].
+             symmetry. clear -Hd. induction done as [|[k v] d IH]; [reflexivity|]. cbn in *. destruct (beqb k n) eqn:E; [apply beqb_eq in E; tauto|]. apply IH. tauto. }
+           rewrite Ev. cbn [app]. exists ((inv ++ []) ++ txt). split.
+           ++ apply mget_mappend_same, mget_mappend_same. now apply mget_mappend_none.
+           ++ now rewrite app_nil_r.
+      * assert (Eq : beqb n k = false) by (destruct (beqb n k) eqn:E; [apply beqb_eq in E; congruence|reflexivity]). rewrite Eq, app_nil_r.
+        rewrite mget_mremove_other, !mget_mappend_other by exact Hkn. destruct (HI k) as [_ Hi]. apply Hi. tauto.
 Qed.
 
-(* C15 *)
+Lemma all_attrs_run attrs : forall done am bm, Inv done am bm -> Forall (fun a => isu (fst a) = true) attrs ->
+  exists am' bm', all_attrs (am, bm) (map enc_attr attrs) = Ok (am', bm') /\ Inv (done ++ attrs) am' bm'.
+Proof.
+  induction attrs as [|[n vals] attrs IH]; intros done am bm HI Hu.
+  - exists am, bm. rewrite app_nil_r. now split.
+  - inversion Hu as [|? ? Hun Hu']; subst. cbn [fst] in Hun.
+    destruct (one_attr_step done am bm n vals HI Hun) as (am1 & bm1 & E1 & HI1).
+    destruct (IH (done ++ [(n, vals)]) am1 bm1 HI1 Hu') as (am' & bm' & E2 & HI2).
+    exists am', bm'. split; [|now rewrite <- app_assoc in HI2].
+    unfold all_attrs, one_attr in *. cbn [map all_attrs_gen]. now rewrite E1.
+Qed.
+
+(* C15, for every entry: attribute descriptions may repeat (repair F41) *)
 Theorem c15_construct dn attrs :
-  isu dn = true -> NoDup (map fst attrs) -> Forall (fun a => isu (fst a) = true) attrs ->
+  isu dn = true -> Forall (fun a => isu (fst a) = true) attrs ->
   exists e, construct (enc_entry dn attrs) = Ok e /\ e_dn e = dn /\
-    (forall a, In a attrs ->
-        (* exactly one of the two maps; text iff every value is UTF-8, values in order *)
-        (all_text (snd a) = true  -> mget (fst a) (e_attrs e) = Some (snd a) /\ mget (fst a) (e_bin e) = None) /\
-        (all_text (snd a) = false -> mget (fst a) (e_attrs e) = None /\
-                                     exists bs, mget (fst a) (e_bin e) = Some bs /\ Permutation bs (snd a))) /\
+    (forall k, In k (map fst attrs) ->
+        (* exactly one of the two maps; text iff every value sent under the description is UTF-8, values in the order sent *)
+        (all_text (vals_of k attrs) = true  -> mget k (e_attrs e) = Some (vals_of k attrs) /\ mget k (e_bin e) = None) /\
+        (all_text (vals_of k attrs) = false -> mget k (e_attrs e) = None /\
+                                     exists bs, mget k (e_bin e) = Some bs /\ Permutation bs (vals_of k attrs))) /\
     (forall k, ~ In k (map fst attrs) -> mget k (e_attrs e) = None /\ mget k (e_bin e) = None).   (* nothing else *)
 Proof.
-  intros Hdn Hnd Hu. unfold construct, enc_entry. cbn beta iota. change (4 =? 4) with true. cbn [negb]. rewrite Hdn. cbn [negb].
-  destruct (all_attrs_spec attrs [] [] Hnd Hu) as (am & bm & Hrun & Hin & Hout); [intros; split; reflexivity|].
-  unfold amap in *. eexists. split; [rewrite Hrun; reflexivity|]. cbn [e_dn e_attrs e_bin]. split; [reflexivity|]. split.
-  - intros a Ha. destruct (Hin a Ha) as [E1 E2]. unfold text_of, bin_of in *. split; intros Et; rewrite Et in *.
-    + now split.
-    + split; [assumption|]. eexists. split; [exact E2|].
-      clear. induction (snd a) as [|v vs IH]; [constructor|]. cbn. destruct (isu v); cbn.
-      * apply Permutation_sym, Permutation_cons_app, Permutation_sym. exact IH.
-      * now constructor.
-  - intros k Hk. destruct (Hout k Hk) as [E1 E2]. now rewrite E1, E2.
+  intros Hdn Hu. unfold construct, construct_gen, enc_entry. cbn beta iota. change (4 =? 4) with true. cbn [negb]. rewrite Hdn. cbn [negb].
+  assert (H0 : Inv [] [] []) by (intros k; split; [now split|intros []]).
+  destruct (all_attrs_run attrs [] [] [] H0 Hu) as (am & bm & Hrun & HI). cbn [app] in HI.
+  unfold all_attrs in Hrun. unfold amap in *. eexists. split; [rewrite Hrun; reflexivity|]. cbn [e_dn e_attrs e_bin]. split; [reflexivity|]. split.
+  - intros k Hk. destruct (HI k) as [_ Hi]. specialize (Hi Hk). split; intros Et; rewrite Et in Hi; exact Hi.
+  - intros k Hk. destruct (HI k) as [Ho _]. exact (Ho Hk).
 Qed.
+(* with descriptions that do not repeat, [vals_of] is the attribute's own value list: the statement of the earlier rounds *)
+Lemma vals_of_nodup attrs a : NoDup (map fst attrs) -> In a attrs -> vals_of (fst a) attrs = snd a.
+Proof.
+  induction attrs as [|[k v] attrs IH]; intros Hnd Hin; [destruct Hin|]. cbn [map fst] in Hnd. inversion Hnd as [|? ? Hnin Hnd']; subst.
+  unfold vals_of. cbn [filter fst]. destruct Hin as [<-|Hin].
+  - cbn [fst snd]. rewrite (proj2 (beqb_eq k k) eq_refl). cbn [map concat snd].
+    replace (filter (fun a => beqb (fst a) k) attrs) with (@nil spec_attr); [cbn; now rewrite app_nil_r|].
+    symmetry. clear -Hnin. induction attrs as [|[k2 v2] d IH]; [reflexivity|]. cbn in *. destruct (beqb k2 k) eqn:E; [apply beqb_eq in E; tauto|]. apply IH. tauto.
+  - assert (Hne : beqb k (fst a) = false). { destruct (beqb k (fst a)) eqn:E; [|reflexivity]. apply beqb_eq in E. subst k. elim Hnin. now apply in_map. }
+    rewrite Hne. now apply IH.
+Qed.
+(* as found: the later element replaces the earlier values; a text and a binary element leave the attribute in both maps *)
 End Construct.
 
 (* instantiated with the real classifier *)
 Definition c15 := c15_construct Utf8.valid.
 Print Assumptions c15.
 (* the probe of round 0, on the model *)
+Lemma c15_refuted_F41 :
+  let lost := enc_entry [x63] [([x6d], [[x61]; [x62]]); ([x6d], [[x63]])] in
+  let both := enc_entry [x63] [([x6d], [[x61]]); ([x6d], [[xff]])] in
+  construct_gen Utf8.valid false lost = Ok {| e_dn := [x63]; e_attrs := [([x6d], [[x63]])]; e_bin := [] |} /\
+  construct Utf8.valid lost = Ok {| e_dn := [x63]; e_attrs := [([x6d], [[x61]; [x62]; [x63]])]; e_bin := [] |} /\
+  construct_gen Utf8.valid false both = Ok {| e_dn := [x63]; e_attrs := [([x6d], [[x61]])]; e_bin := [([x6d], [[xff]])] |} /\
+  construct Utf8.valid both = Ok {| e_dn := [x63]; e_attrs := []; e_bin := [([x6d], [[xff]; [x61]])] |}.
+Proof. vm_compute. repeat split. Qed.
 Example mixed :
   construct Utf8.valid (enc_entry [x63] [([x6d], [[x76; x31]; [xff; xfe]; [x76; x33]; [xc0; x80]])]) =
   Ok {| e_dn := [x63]; e_attrs := []; e_bin := [([x6d], [[xff; xfe]; [xc0; x80]; [x76; x31]; [x76; x33]])] |}.
